@@ -37,7 +37,7 @@ ASSUMPTIONS = [
 SHARDS = {"quick": 8, "thorough": 16}
 TIMEOUT = {"quick": 600, "thorough": 3600}
 MIN_CASES = {"quick": 1500, "thorough": 30000}
-REQUIRED_COUNTERS = ["requests_compared", "transport_calls_counted", "encrypted_requests", "plaintext_phase_requests", "multi_frame_requests", "json_bodies_scanned", "reconnects_to_other_address", "hard_json_refused", "concurrent_bursts", "poll_set_mutations"]
+REQUIRED_COUNTERS = ["requests_compared", "transport_calls_counted", "encrypted_requests", "plaintext_phase_requests", "multi_frame_requests", "json_bodies_scanned", "reconnects_to_other_address", "hard_json_refused", "concurrent_bursts", "poll_set_mutations", "requests_under_backpressure"]
 
 HOSTS = ["10.0.0.5", "192.168.100.200", "fd00::5", "2001:db8::1:2", "fe80::1234%eth0", "fe80::1%3"]
 JSON_CT = "application/hap+json"
@@ -234,6 +234,12 @@ def expect_subscriptions(ids, ev):
     return check
 
 
+async def vloop_settle():
+    from vf import vloop
+
+    await vloop.settle()
+
+
 async def run_session(ctx, idx) -> None:
     from aiohomekit.http import HttpContentTypes
     from vf import simnet
@@ -341,6 +347,48 @@ async def run_session(ctx, idx) -> None:
                 ctx.violation("concurrent-requests-differ", f"{n} concurrent requests: the accessory received {len(got)} requests; first differing: {next((g[:90] for g in got if all(g not in w_ for w_ in want_sets)), None)!r}", {"label": idx, "call": "burst"})
             elif len(s.transport_calls()) - c0 != n:
                 ctx.violation("request-not-single-transport-call", f"burst of {n} requests took {len(s.transport_calls()) - c0} transport calls", {"label": idx, "call": "burst"})
+        # ---- back-pressure: the transport's write buffer is full (the accessory is not reading) when further requests are
+        # issued on a connection that allows several outstanding requests; each still goes to the transport in ONE call ----
+        if idx % 2 == 0:
+            import socket as _socket
+
+            tr = w.connection.transport
+            saved_limit = c._concurrency_limit
+            c._concurrency_limit = asyncio.Semaphore(3)
+            try:
+                tr.get_extra_info("socket").setsockopt(_socket.SOL_SOCKET, _socket.SO_SNDBUF, 2048)
+                s.conn.transport.pause_reading()
+                n0, c0 = len(s.conn.requests), len(s.transport_calls())
+                big = asyncio.ensure_future(c.put("/x/backpressure-big", bytes(rng.randrange(256) for _ in range(1000)) * 300))
+                await vloop_settle()
+                over_high_water = tr.get_write_buffer_size() > tr.get_write_buffer_limits()[1]
+                if over_high_water:
+                    # what a transport does at this point (asyncio's flow-control contract; CPython 3.12.1's writelines() happens
+                    # not to, its write() does): tell the protocol to pause
+                    c.protocol.pause_writing()
+                small = [asyncio.ensure_future(c.put(f"/x/backpressure-{j}", rng.randbytes(rng.choice([10, 1500, 3000])))) for j in range(2)]
+                await vloop_settle()
+                paused = tr.get_write_buffer_size() > 0
+                s.conn.transport.resume_reading()
+                if over_high_water:
+                    for _ in range(200):
+                        await asyncio.sleep(0)
+                        if tr.get_write_buffer_size() <= tr.get_write_buffer_limits()[0]:
+                            break
+                    if c.protocol is not None:
+                        c.protocol.resume_writing()
+                await asyncio.gather(big, *small, return_exceptions=True)
+                await vloop_settle()
+                reqs, calls = s.conn.requests[n0:], s.transport_calls()[c0:]
+                ctx.case("backpressure", idx, sample={"api": "requests issued while the write buffer is backed up", "buffer_backed_up": paused}, kind="backpressure")
+                if paused:
+                    ctx.count("requests_under_backpressure", len(reqs))
+                if len(reqs) != 3 or len(calls) != 3:
+                    ctx.violation("request-not-single-transport-call", f"3 requests issued under back-pressure (write buffer backed up: {paused}) reached the accessory as {len(reqs)} requests through {len(calls)} transport write calls", {"label": idx, "call": "backpressure"})
+                for r in reqs:
+                    generic_canonical(ctx, r, host, {"label": idx, "call": "backpressure"})
+            finally:
+                c._concurrency_limit = saved_limit
         # ---- pairing API ----
         p = w.pairing
         await s.call("list_accessories", p.list_accessories_and_characteristics(), expect_one("GET", "/accessories"))
